@@ -77,7 +77,8 @@ class FormulaParser(Parser):
                   | expression AMP expression
         """
         if p[2] == '&':
-            p[0] = str(p[1]) + str(p[3])
+            # a blank joins as nothing
+            p[0] = ('' if p[1] is None else str(p[1])) + ('' if p[3] is None else str(p[3]))
         else:
             p[0] = operators.evaluate_arithmetic(p[2], p[1], p[3])
 
